@@ -295,7 +295,9 @@ class FuncCalendar(IWorkCalendar):
         self.__func = func
 
     def get_available_units(self, date: datetime) -> Optional[float]:
-        return self.__func(self.__calendar.get_available_units(date))
+        # The function is declared for numbers: dates the calendar knows nothing about stay unknown
+        units = self.__calendar.get_available_units(date)
+        return None if units is None else self.__func(units)
 
     def __repr__(self):
         res = 'Func: ' + str(self.__func) + '\n'
